@@ -201,3 +201,11 @@ PLANS["C12"] = ctl(["multi"], ["multi"],
 PLANS["C12"]["emit_rate"] = dict(quick=3, thorough=3)
 PLANS["C12"]["iso_drives"] = dict(quick=[D("mix", n=14, steps=80, procs=4)], thorough=[D("mix", n=60, steps=100, procs=8), D("reap", n=40, steps=100, procs=8)])
 PLANS["C11"]["families"] = dict(quick=["dry", "multidry", "all_dry"], thorough=["dry", "multidry", "all_dry"])
+
+LOOP_STAGE = dict(gen=dict(quick=[("Loop.tla", "Loop.cfg", {})], thorough=[("Loop.tla", "Loop.cfg", {"MaxScan": "5"})]), cmd="loop", trace="TraceLoop",
+                  max_cases=dict(quick=60, thorough=250))
+PLANS["C19"]["stages"].append(LOOP_STAGE)
+PLANS["C19"]["required_facts"] += ["loop-fatal-exit", "loop-stopped", "loop-non-fatal-failure-survived"]
+PLANS["C20"] = dict(kind="func", stages=[LOOP_STAGE], also_ctl=PLANS["C20"], rule=PLANS["C20"]["rule"] + "; plus the controller's own RunForever loop driven over a two-group world "
+                    "(fatal condition / non-fatal failure / stop signal at every scan index)", required_facts=["loop-fatal-exit", "loop-stopped", "loop-non-fatal-failure-survived"],
+                    assumptions=COMMON_ASSUMPTIONS)
